@@ -225,6 +225,16 @@ class Check:
         for that case and exploration continues."""
         import traceback
 
+        # Every case starts from the library's defaults: the hook-H4 knob (scaled-down default batch size, set by
+        # `GDef.graph` for configurations with `derived_batch`) must not outlive the case that asked for it.  A stage that
+        # builds its graphs directly (C18's layers above 2^16 rows) once inherited batch size 1 from the previous case and
+        # split a 70 000-row layer into 70 000 batches - a run of hours, stopped as a timeout.
+        try:
+            import cayleypy.torch_utils as _tu
+
+            getattr(_tu, "VERIF_KNOBS", {}).pop("default_batch_size", None)
+        except ImportError:
+            pass
         try:
             return fn(*a, **kw)
         except (SystemExit, KeyboardInterrupt):
@@ -398,7 +408,7 @@ class Check:
     def enough(self) -> bool:
         """True once enough violations are recorded that exploring further only costs time."""
         el = time.time() - self.t0
-        return len(self.violations) >= 3 or (self.violations and el > 240) or el > (1500 if not self.thorough else 7200)
+        return len(self.violations) >= 3 or (self.violations and el > 240) or el > (600 if not self.thorough else 7200)
 
     def correspondence_break(self, what: str, detail):
         """Model and implementation differ (or a proof/translator obligation broke) without a
